@@ -120,7 +120,7 @@ def main():
                     shutil.copy(f, dst)
             meta = json.load(open(dst + '/meta.json'))
             meta['confirmed'] = {'demo_unchanged_exit': r['demo_unchanged'][0], 'demo_patched_exit': r['demo_patched'][0],
-                                 'tests': r.get('tests'), 'round': 2}
+                                 'tests': r.get('tests'), 'round': int(os.environ.get('SEED_ROUND', '2'))}
             json.dump(meta, open(dst + '/meta.json', 'w'), indent=1)
         print(sid, 'CONFIRMED' if r['ok'] else 'REJECTED', {k: v for k, v in r.items() if k in ('error', 'demo_unchanged', 'demo_patched', 'tests')} if not r['ok'] else r.get('tests', {}).get('tail'))
 
